@@ -786,15 +786,31 @@ func (vfs *OrefaFS) Rename(oldname, newname string) error {
 	oDirName, oFileName := avfs.SplitAbs(vfs, oAbsPath)
 	nDirName, nFileName := avfs.SplitAbs(vfs, nAbsPath)
 
-	vfs.mu.RLock()
+	// The index is locked before any node, as in Mkdir, Remove and OpenFile.
+	vfs.mu.Lock()
+	defer vfs.mu.Unlock()
+
 	oChild, oChildOk := vfs.nodes[oAbsPath]
 	oParent, oParentOk := vfs.nodes[oDirName]
 	nChild, nChildOk := vfs.nodes[nAbsPath]
 	nParent, nParentOk := vfs.nodes[nDirName]
-	vfs.mu.RUnlock()
 
 	if !oChildOk || !oParentOk || !nParentOk {
 		return &os.LinkError{Op: op, Old: oldname, New: newname, Err: vfs.err.NoSuchFile}
+	}
+
+	if !nParent.mode.IsDir() {
+		return &os.LinkError{Op: op, Old: oldname, New: newname, Err: vfs.err.NotADirectory}
+	}
+
+	if strings.HasPrefix(nAbsPath, oAbsPath+string(vfs.PathSeparator())) {
+		// A file or directory can't be moved below itself.
+		err := vfs.err.InvalidArgument
+		if !oChild.mode.IsDir() {
+			err = vfs.err.NotADirectory
+		}
+
+		return &os.LinkError{Op: op, Old: oldname, New: newname, Err: err}
 	}
 
 	if (oChild.mode.IsDir() && nChildOk) || (!oChild.mode.IsDir() && nChildOk && nChild.mode.IsDir()) {
@@ -814,12 +830,21 @@ func (vfs *OrefaFS) Rename(oldname, newname string) error {
 		defer oParent.mu.Unlock()
 	}
 
-	nParent.children[nFileName] = oChild
+	if nChildOk {
+		if nChild == oChild {
+			// oldname and newname are hard links to the same file.
+			return nil
+		}
+
+		// the replaced file loses a link.
+		nChild.mu.Lock()
+		nChild.remove()
+		nChild.mu.Unlock()
+	}
+
+	nParent.addChild(nFileName, oChild)
 
 	delete(oParent.children, oFileName)
-
-	vfs.mu.Lock()
-	defer vfs.mu.Unlock()
 
 	vfs.nodes[nAbsPath] = oChild
 	delete(vfs.nodes, oAbsPath)
